@@ -275,6 +275,16 @@ def same(a, b, tol=0.0):
     return a == b
 
 
+def fold180(g):
+    """a canonicalised Grid with every node longitude of -180 written as +180"""
+    d = dict(g[1])
+    a = d["lon"]
+    x = np.array(a[3], dtype=float, copy=True)
+    x[x == -180.0] = 180.0
+    d["lon"] = (a[0], a[1], a[2], x)
+    return (g[0], d)
+
+
 def same_export(hist, fresh, canon_vars):
     """exports differ from a fresh grid's export only by extra derived variables holding the canonical value"""
     if hist[0] != "dataset" or fresh[0] != "dataset":
@@ -446,6 +456,10 @@ def run_history(ck, meshes, kinds, hist, refs, g0, known_set, stats):
             if op[0] == "attr" and r[0] == fresh[0] and r[0] in ("set", "dict") and not set(map(str, fresh[1])) <= set(map(str, r[1])):
                 ck.fail("introspection_lost_entries", dict(case, failing_step=step), info)
         elif not same(r, fresh, tol=(1e-12 if op[0] in DERIVED_GRID_OPS else 0.0)):
+            if r[0] == "grid" and fresh[0] == "grid" and same(fold180(r), fold180(fresh), tol=1e-12):
+                # the two grids differ only in a node longitude reported as -180 by one and +180 by the other (same point)
+                info = dict(info, differs_only_in="sign_of_180_degree_node_longitude",
+                            source_supplies_lonlat=kinds[t] not in ("cart",))
             ck.fail("result_differs_from_fresh", dict(case, failing_step=step), info,
                     detail="history result %s vs fresh %s" % (str(r)[:300], str(fresh)[:300]))
         # (c) module-level constants
